@@ -90,7 +90,7 @@ impl<$TP> Handle<$G, Message<Never, Tok_source_talkback>> for UpSrc {
         if k == $GATE_SUB_KIND { m is Handshake }
         else if k == $GATE_SUB_ONCE { $LITE || (self.i < g.ups.len() && g.ups[self.i as int].phase == Up::Idle) }
         else if k == $GATE_SUB_OVER { $LITE || (!dn_over(g.dn.phase)) }
-        else if k == $GATE_QUIET { $LITE || (quiet(g)) }
+        else if k == $GATE_QUIET { $LITE || $LATE || (quiet(g)) }
         else { upsrc_gate(*self, k, h, g, c, m) }
     }
     open spec fn post(&self, g: $G, m: Message<Never, Tok_source_talkback>) -> $G { set_up(g, self.i as int, UpLink { phase: Up::Subscribing, ..g.ups[self.i as int] }) }
